@@ -239,12 +239,25 @@ def r15_2(run):
     run.ob("pickle|same-geodata-lists", len(a) == 1 and a == b_ and len(a[0]) == 2,
            "to_pickle and from_pickle transform the same geodata tables: %s" % ([tshow(x) for x in a[0]] if a else None), run.where(tp, tp.node))
     # encoder: dropped keys
+    from ..index import FunctionInfo
     mi = ix.module(IU)
     for n in mi.tree.body:
         if isinstance(n, ast.FunctionDef) and n.name == "json_net":
-            src = U(n).replace(" ", "").replace('"', "'")
-            run.ob("json_net|drops-internal-keys-only|%s" % U(n.decorator_list[0])[:40], "ifnotk.startswith('_')" in src and "with_signature(obj,net_dict)" in src,
-                   "the net encoder drops exactly the keys starting with '_'", "%s:%d" % (ix.sp.relpath(IU), n.lineno))
+            fi = FunctionInfo(IU, n.name, n)
+            rj = ANF(ix, fi).run()
+            p0 = fi.params()[0]
+            ok = False
+            for e in rj.returns():
+                v = e.value
+                if v[0] == "call" and v[1][0] in ("x", "f") and v[1][1].endswith("with_signature") and len(v[2]) == 2 and v[2][0] == ("n", p0):
+                    dc = v[2][1]
+                    if dc[0] == "comp" and dc[1] == "DictComp" and dc[2] == ("kv", ("b", 0, 0), ("b", 0, 1)) and len(dc[3]) == 1:
+                        bv, it, ifs = dc[3][0]
+                        keep = ("u", "not", ("call", ("attr", ("b", 0, 0), "startswith"), (C("_"),), ()))
+                        ok = it == ("call", ("attr", ("n", p0), "items"), (), ()) and ifs == (keep,)
+            dec = U(n.decorator_list[0])[:40] if n.decorator_list else "-"
+            run.ob("json_net|drops-internal-keys-only|%s" % dec, ok,
+                   "the net encoder writes every entry of the net except exactly the keys starting with '_'", "%s:%d" % (ix.sp.relpath(IU), n.lineno))
     # decoder arms
     reg = ix.cls(IU + ".FromSerializableRegistryPpipe")
     arms = {}
@@ -255,12 +268,33 @@ def r15_2(run):
     run.ob("decoder|net-arms", arms.get("pandapipesNet", {}).get("class_name") == "pandapipesNet" and arms.get("MultiNet", {}).get("class_name") == "MultiNet",
            "the decoder has arms for pandapipesNet and MultiNet", run.where(reg, reg.node), detail=str(arms))
     rest = reg.methods.get("rest")
-    src = U(rest.node) if rest else ""
-    run.ob("decoder|serialisable-and-component-classes", "issubclass(class_, JSONSerializableClass)" in src and "class_.from_dict(self.obj)" in src
-           and "issubclass(class_, Component)" in src, "the generic arm rebuilds serialisable objects through from_dict and returns component classes",
+    ok_ser = ok_comp = False
+    if rest is not None:
+        rr = ANF(ix, rest).run()
+
+        def sub_of(c_, name):
+            return any(x[0] == "call" and x[1] == ("x", "builtins.issubclass") and len(x[2]) == 2 and x[2][1][0] in ("f", "x")
+                       and x[2][1][1].endswith(name) for x in walk(c_))
+        for e in rr.returns():
+            v = e.value
+            if v[0] == "call" and v[1][0] == "attr" and v[1][2] == "from_dict" and any(p_ and sub_of(c_, "JSONSerializableClass") for c_, p_ in e.cond):
+                cls_t = v[1][1]
+                ok_ser = any(x[0] == "call" and x[1] == ("x", "builtins.issubclass") and x[2][0] == cls_t for c_, p_ in e.cond for x in walk(c_))
+            if any(p_ and sub_of(c_, ".Component") for c_, p_ in e.cond):
+                ok_comp = any(x[0] == "call" and x[1] == ("x", "builtins.issubclass") and x[2][0] == v for c_, p_ in e.cond for x in walk(c_))
+    run.ob("decoder|serialisable-and-component-classes", ok_ser and ok_comp,
+           "the generic arm rebuilds serialisable objects through <class>.from_dict and returns component classes themselves",
            run.where(reg, reg.node))
     enc = [n for n in mi.tree.body if isinstance(n, ast.FunctionDef) and n.name == "json_component"]
-    run.ob("encoder|component-classes", len(enc) == 1 and "issubclass(class_, Component)" in U(enc[0]),
+    ok = False
+    if len(enc) == 1:
+        fe = FunctionInfo(IU, "json_component", enc[0])
+        re_ = ANF(ix, fe).run()
+        p0 = fe.params()[0]
+        ok = any(e.value[0] == "call" and e.value[1][1].endswith("with_signature") and any(
+            p_ and c_ == ("call", ("x", "builtins.issubclass"), (("n", p0), c_[2][1]), ()) and c_[2][1][1].endswith(".Component") for c_, p_ in e.cond)
+            for e in re_.returns() if e.value[0] == "call" and e.value[1][0] in ("x", "f"))
+    run.ob("encoder|component-classes", ok,
            "component classes (net.component_list) are written with a signature", ix.sp.relpath(IU))
     mc = ix.const(IU, "MODULE_CHANGES")
     for cname, modname in sorted(mc.items()):
@@ -270,45 +304,52 @@ def r15_2(run):
 
 
 def r15_3(run):
+    from ..arrnf import ANF, C, show as tshow, walk
     ix = run.index
-    f = ix.func(CF + "._rename_columns")
-    run.analysed(f)
     comps = {ix.method_const(c, "table_name"): [x[0] for x in (ix.method_const(c, "get_component_input") or [])] for c in ix.components()}
-    # circulation pumps
-    nc = [n for n in ast.walk(f.node) if isinstance(n, ast.Assign) and U(n.targets[0]) == "new_cols"]
-    ok = len(nc) == 1
-    if ok:
-        lits = [const_str(e) for e in ast.walk(nc[0].value) if isinstance(e, ast.Constant) and isinstance(e.value, str)]
-        for tbl in ("circ_pump_mass", "circ_pump_pressure"):
-            have = set(comps[tbl])
-            want = set(lits) - ({"mdot_flow_kg_per_s"} if tbl == "circ_pump_pressure" else set())
-            run.ob("rename|%s" % tbl, want <= have and "comp.from_to_node_cols()" in U(nc[0].value),
-                   "columns renamed to for %s are input columns of the component" % tbl, run.where(f, nc[0]), detail=str(sorted(want - have)))
-    for fname, tbl in (("_rename_pipe_columns", "pipe"), ("_rename_valve_columns", "valve"), ("_rename_heat_exchanger_columns", "heat_exchanger")):
+    n_ren = 0
+    for fname in ("_rename_columns", "_rename_pipe_columns", "_rename_valve_columns", "_rename_heat_exchanger_columns"):
         g = ix.func(CF + "." + fname)
         run.analysed(g)
-        targets = set()
-        for c in calls(g.node, "rename"):
-            for k in c.keywords:
-                if k.arg == "columns" and isinstance(k.value, ast.Dict):
-                    for v in k.value.values:
-                        if const_str(v):
-                            targets.add(const_str(v))
-        run.ob("rename|%s" % tbl, bool(targets) and targets <= set(comps[tbl]),
-               "columns renamed to for %s (%s) are input columns of the component" % (tbl, sorted(targets)), run.where(g, g.node))
-    g = ix.func(CF + "._rename_valve_columns")
-    src = U(g.node).replace('"', "'")
-    run.ob("rename|valve|from_to_node_cols", "new_cols = list(Valve.from_to_node_cols())" in src and "['et'] = 'ju'" in src,
-           "old junction-junction valves get the class's reference columns and et = 'ju'", run.where(g, g.node))
+        r = ANF(ix, g, param_alias={g.params()[0]: "net"}).run()
+        per = {}
+        for c in r.calls():
+            if c.fn[0] == "attr" and c.fn[2] == "rename" and c.fn[1][0] == "idx" and c.fn[1][1] == ("n", "net") and c.fn[1][2][0][0] == "c":
+                tbl = c.fn[1][2][0][1]
+                cols = dict(c.kw).get("columns")
+                if cols is None or cols[0] != "dict" or not all(k_[0] == "c" and v_[0] == "c" for k_, v_ in cols[1]):
+                    raise AnalysisError("%s: rename with a computed column mapping: %s" % (fname, tshow(c.term)[:120]))
+                for k_, v_ in cols[1]:
+                    # a rename that is applied only if the old column exists may name a column of a sibling component
+                    guarded = any(x[0] == "cmp" and x[1] == "in" and x[2] == k_ and p_ for c_, p_ in c.cond for x in walk(c_))
+                    if guarded and v_[1] not in comps.get(tbl, []) and any(v_[1] in cs_ for cs_ in comps.values()):
+                        continue
+                    per.setdefault(tbl, {})[k_[1]] = v_[1]
+        for tbl, mp in sorted(per.items()):
+            n_ren += len(mp)
+            bad = sorted(v for v in mp.values() if v not in comps.get(tbl, []))
+            run.ob("rename|%s|%s" % (fname, tbl), tbl in comps and not bad,
+                   "columns renamed to for %s (%s) are input columns of the component" % (tbl, sorted(set(mp.values()))), run.where(g, g.node),
+                   detail="not an input column: %s" % bad if bad else None)
+        if fname == "_rename_valve_columns":
+            valve = next(c for c in ix.components() if ix.method_const(c, "table_name") == "valve")
+            ft = list(ix.method_const(valve, "from_to_node_cols"))
+            mp = per.get("valve", {})
+            run.ob("rename|valve|from_to_node_cols", [mp.get("from_junction"), mp.get("to_junction")] == ft and
+                   any(s_.base == ("idx", ("n", "net"), (C("valve"),)) and s_.index == (C("et"),) and s_.value == C("ju") for s_ in r.stores()),
+                   "old junction-junction valves get the class's reference columns and et = 'ju'", run.where(g, g.node))
+    run.ob("renames-found", n_ren >= 12, "column renames analysed: %d" % n_ren, CF)
     a = ix.func(CF + "._add_missing_columns")
-    run.ob("missing-column|pipe.outer_diameter_mm", "outer_diameter_mm" in comps["pipe"] and "['outer_diameter_mm'] = np.nan" in U(a.node).replace('"', "'"),
-           "the added pipe column exists in the component", run.where(a, a.node))
+    ra = ANF(ix, a, param_alias={a.params()[0]: "net"}).run()
+    ok = "outer_diameter_mm" in comps["pipe"] and any(s_.base == ("idx", ("n", "net"), (C("pipe"),)) and s_.index == (C("outer_diameter_mm"),)
+                                                         and s_.value == C("nan") for s_ in ra.stores())
+    run.ob("missing-column|pipe.outer_diameter_mm", ok, "the added pipe column exists in the component and is filled with NaN", run.where(a, a.node))
     cf = ix.func(CF + ".convert_format")
     order = [callee_name(c) for c in calls(cf.node)]
     run.ob("convert_format|steps", [x for x in order if x in ("_add_sector", "add_default_components", "_rename_columns", "_add_missing_columns", "_rename_attributes")]
            == ["_add_sector", "add_default_components", "_rename_columns", "_add_missing_columns", "_rename_attributes"],
            "convert_format adds the sector and default components, then renames and completes columns", run.where(cf, cf.node))
-    run.floor(8)
+    run.floor(7)
 
 
 def r15_4(run):
